@@ -1,6 +1,6 @@
 SPECIFICATION TSpec
 CONSTANTS
   Names = {"a"}
-  Vers = {"v1"}
+  Vers = {"v1", "v2"}
   Policy = "journal"
 CHECK_DEADLOCK FALSE
